@@ -102,6 +102,11 @@ func (e *Engine) specCall(env *SpecEnv, x *SExpr) Value {
 			base = env.old.nextRefTerm()
 		}
 		return And(Lt(IntLit(0), r), Lt(r, base))
+	case "valid":
+		// valid(x): x refers to an object allocated so far (or is nil)
+		need(1)
+		r := e.refOf(e.evalSpec(env, args[0]))
+		return And(Le(IntLit(0), r), Lt(r, env.st.nextRefTerm()))
 	case "ref":
 		need(1)
 		return e.refOf(e.evalSpec(env, args[0]))
